@@ -151,7 +151,7 @@ fn instants(ch: &mut Choices, case: &mut Case) -> Result<(), String> {
     // same until 10000-01-01" is cheap to decide exactly
     let late_band = ch.chance(35);
     let base_year = if late_band { 9984 + ch.int(0, 12) as i32 } else if ch.chance(85) { 2020 } else { ch.pick(&[1900, 2096]) };
-    let cfg = Cfg { max_rules: 4, base_year, wide_years: !late_band, dense: ch.chance(40), max_day_offset: 40, ..Cfg::default() };
+    let cfg = Cfg { max_rules: 4, base_year, wide_years: !late_band, dense: ch.chance(40), max_day_offset: 40, jumpable_pct: 25, ..Cfg::default() };
     let g = gen_case(ch, &cfg)?;
     label_expr(&g.ast, case);
     if late_band {
@@ -173,7 +173,7 @@ fn instants(ch: &mut Choices, case: &mut Case) -> Result<(), String> {
 /// Thorough: uncapped calls, scan to the end of the supported range.
 fn far(ch: &mut Choices, case: &mut Case) -> Result<(), String> {
     let base_year = ch.pick(&[2020, 1900, 5000]);
-    let cfg = Cfg { max_rules: 3, base_year, dense: ch.chance(40), max_day_offset: 40, ..Cfg::default() };
+    let cfg = Cfg { max_rules: 3, base_year, dense: ch.chance(40), max_day_offset: 40, jumpable_pct: 25, ..Cfg::default() };
     let g = gen_case(ch, &cfg)?;
     label_expr(&g.ast, case);
     let dates = DateGen::new(&g.ast, g.base_year, &g.holidays.model);
